@@ -22,11 +22,20 @@
    Limbo: finalize deletes exactly the entries at or below the finalised block; push records
    the including block.  Eviction: drop() removes the last transaction of the heap's first
    account; the loop ends within the data cap.
-   PARTIAL: the limbo invariant over histories (in limbo iff included in a not yet final block
-   of the current chain), index_store_agree, reopen_reproduces for clean shutdowns (equality of
-   the rebuilt index) and minimality of the evicted account for a freshly built heap are
-   checked by correspondence and the Go oracle only. *)
-From GV Require Import Lib.Tactics Pool.Blob Pool.BlobProofs Pool.BlobAddProofs Pool.BlobResetProofs Pool.BlobInitProofs Pool.BlobLimboProofs Pool.BlobLimboReset Pool.BlobLimboFrame Pool.BlobLimboEntry Pool.BlobRollingProofs Pool.BlobRollingTip Pool.BlobRollingReset Pool.BlobReopenProofs Pool.BlobReopenPerm Pool.BlobRollingWitness Pool.BlobWitness Pool.BlobWitness2.
+   Store: the billy laws (Put returns a fresh id, Get after Put, Put/Delete leave other live ids
+   alone) at shelf and id level; billy_open on what a clean Close leaves hands back exactly the
+   live entries, each once.  reopen_reproduces for clean shutdowns is proved
+   (C42_clean_restart_reproduces) under the guards: index and store describe the same
+   transactions, pooled tips >= tip, stored sizes within Datacap.
+   Limbo over a Reset: reorg()'s walk is complete; recheck only pushes inclusions; after a Reset
+   every entry is above the finalised block and is an old entry or an inclusion on the new
+   chain; a limbo sound for the old chain stays sound for the new one except possibly for
+   surviving entries of discarded transactions; pull/reinject remove every entry of the hash.
+   PARTIAL: closing that exception over histories (the consistency invariant lcons through
+   update, finalize and the limbo's reopen; transactor/blob-flag completeness of reorg),
+   index_store_agree as a history invariant and minimality of the evicted account for a freshly
+   built heap are checked by correspondence and the Go oracle only. *)
+From GV Require Import Lib.Tactics Pool.Blob Pool.BlobProofs Pool.BlobAddProofs Pool.BlobResetProofs Pool.BlobInitProofs Pool.BlobLimboProofs Pool.BlobLimboReset Pool.BlobLimboFrame Pool.BlobLimboEntry Pool.BlobRollingProofs Pool.BlobRollingTip Pool.BlobRollingReset Pool.BlobReopenProofs Pool.BlobReopenPerm Pool.BillyOpenProofs Pool.BlobRestartProofs Pool.BlobRestartMain Pool.BlobRestartFinal Pool.BillyLawsProofs Pool.BillyIdLaws Pool.BlobReorgProofs Pool.BlobLimboRecheck Pool.BlobLimboSound Pool.BlobLimboResetSound Pool.BlobLimboCons Pool.BlobRollingWitness Pool.BlobWitness Pool.BlobWitness2.
 Local Open Scope N_scope.
 
 (* blob_contiguous, list level: whatever recheck's threshold loop keeps has consecutive nonces
@@ -292,8 +301,7 @@ Print Assumptions C42_recheck_keeps_wellformed_account.
    built by tracking the store entries (any order, fresh store ids, fields unset, same chain
    state): if the nonce-sorted tracked entries of an account carry the transactions of p's list,
    the reopened account has the same transactions in the same order, the same three eviction
-   fields and the same spent total.  What is NOT proved is the store half: that billy's
-   Close + Open (compaction) hands back exactly the live entries, each once. *)
+   fields and the same spent total. *)
 Theorem C42_reopen_account_reproduces : forall prioE prioB a p x s l0 s0,
   aget (p_index p) a = Some s -> acct_ok p a -> rk p a -> (length s <= maxTxsPerAccount)%nat ->
   p_nonce x = p_nonce p -> p_bal x = p_bal p ->
@@ -319,6 +327,146 @@ Theorem C42_reopen_account_reproduces_any_store_order : forall prioE prioB a p x
     aget (p_spent y) a = aget (p_spent p) a.
 Proof. exact reopen_account_perm. Qed.
 Print Assumptions C42_reopen_account_reproduces_any_store_order.
+
+(* the store half: billy.Open (shelf.go compact, the two-directional loop) on what a clean Close
+   left on disk hands the index callback exactly the live entries of the store, each once (store
+   ids may differ: compaction moves entries) *)
+Theorem C42_billy_open_after_close_returns_live_entries : forall (b : billy) b' calls,
+  billy_open (close_image b) = (b', calls) ->
+  Permutation.Permutation (map snd calls) (map snd (billy_live b)).
+Proof. exact billy_open_close. Qed.
+Print Assumptions C42_billy_open_after_close_returns_live_entries.
+
+(* reopen_reproduces for clean shutdowns: Init on what a clean Close of the queue store leaves on
+   disk rebuilds every account with the same transactions in the same order, the same three
+   eviction fields and the same spent total.  Guards: Inv and RInv (both hold over all
+   histories), every account within the per-account cap and with strictly increasing nonces, index
+   and queue store describe the same transactions (per sender, no duplicate hashes), pooled tips
+   >= tip, stored slot sizes within Datacap (a Reset that reinjects can break the last two: then
+   Init legitimately drops), same chain state *)
+Theorem C42_clean_restart_reproduces : forall prioE prioB gtE gtB c p limg head tip q,
+  Inv p -> RInv p -> within_cap p -> strict_nonces p ->
+  (forall a, Permutation.Permutation (txs_by a (billy_live (p_store p))) (map m_tx (txs_of p a))) ->
+  NoDup (map (fun cl => t_id (call_tx cl)) (billy_live (p_store p))) ->
+  tips_ok tip p ->
+  sum_sizes (map call_tx (billy_live (p_store p))) <= c_datacap c ->
+  b_nonce head = p_nonce p -> b_bal head = p_bal p ->
+  pool_init prioE prioB gtE gtB c false (close_image (p_store p)) limg head tip = Ok q ->
+  forall a, same_acct p q a.
+Proof. exact clean_restart_reproduces. Qed.
+Print Assumptions C42_clean_restart_reproduces.
+
+(* the store laws of the billy shelf model (shelf.go getSlot / update / Delete with tail
+   truncation), for shelves whose gap list is in range and strictly increasing (preserved):
+   Put returns a slot no live id names, makes it live with the item, and leaves every other
+   live slot alive with its content *)
+Theorem C42_shelf_put_laws : forall s it s' slot,
+  shelf_wf s -> shelf_put s it = (s', slot) ->
+  ~ live_slot s slot /\ live_slot s' slot /\ slot_get s' slot = Some (Some it) /\ shelf_wf s' /\
+  (forall j, live_slot s j -> live_slot s' j /\ slot_get s' j = slot_get s j).
+Proof. exact shelf_put_laws. Qed.
+Print Assumptions C42_shelf_put_laws.
+
+(* Delete kills its slot and leaves every other live slot alive with its content *)
+Theorem C42_shelf_delete_laws : forall s slot,
+  shelf_wf s -> slot < lenN (sh_slots s) ->
+  let s' := shelf_delete s slot in
+  shelf_wf s' /\ ~ live_slot s' slot /\
+  (forall j, live_slot s j -> j <> slot -> live_slot s' j /\ slot_get s' j = slot_get s j).
+Proof. exact shelf_delete_laws. Qed.
+Print Assumptions C42_shelf_delete_laws.
+
+(* the same laws for billy ids (slot | shelf<<28) as the pool and the limbo use them.  Put:
+   the id is new (no live id equals it), live afterwards, Get returns the item, every other live
+   id stays live with the same Get.  Guard: the shelf written to holds fewer than 2^28 slots *)
+Theorem C42_billy_put_laws : forall b k s it b' id,
+  billy_wf b -> nth_error b (N.to_nat k) = Some s -> lenN (sh_slots s) < two28 ->
+  billy_put b k it = Some (b', id) ->
+  ~ live_id b id /\ live_id b' id /\ billy_get b' id = Ok (Some it) /\ billy_wf b' /\
+  (forall j, live_id b j -> live_id b' j /\ billy_get b' j = billy_get b j).
+Proof. exact billy_put_laws. Qed.
+Print Assumptions C42_billy_put_laws.
+
+(* Delete of a live id: the id is dead afterwards, every other live id stays live with the same Get *)
+Theorem C42_billy_delete_laws : forall b id b',
+  billy_wf b -> live_id b id -> billy_delete b id = Ok b' ->
+  billy_wf b' /\ ~ live_id b' id /\
+  (forall j, live_id b j -> j <> id -> live_id b' j /\ billy_get b' j = billy_get b j).
+Proof. exact billy_delete_laws. Qed.
+Print Assumptions C42_billy_delete_laws.
+
+(* completeness of reorg()'s walk: every block of the old chain is a block of the new chain or
+   all its transactions are reported as discarded (block ids unique, both heads known) *)
+Theorem C42_reorg_walk_complete : forall bs oldh newh ro,
+  ids_unique bs -> In oldh bs -> In newh bs ->
+  reorg bs oldh newh = Some ro ->
+  forall b, reach bs oldh b -> reach bs newh b \/ (forall t, In t (b_txs b) -> In t (ro_disc ro)).
+Proof. exact reorg_walk_complete. Qed.
+Print Assumptions C42_reorg_walk_complete.
+
+(* the limbo frame of recheck (both versions of the gap test): called by Reset it only pushes
+   stored transactions under the block numbers the inclusion map records for them; called by
+   Init (no inclusions) it leaves the limbo alone *)
+Theorem C42_recheck_limbo_frame : forall prioE prioB lg a incl p q,
+  recheck prioE prioB lg a incl p = Ok q ->
+  match incl with
+  | Some inc => pushed inc (p_limbo p) (p_limbo q)
+  | None => p_limbo q = p_limbo p
+  end.
+Proof. exact recheck_limbo. Qed.
+Print Assumptions C42_recheck_limbo_frame.
+
+(* what a Reset leaves in the limbo (code as found or repaired): every group entry is above the
+   finalised block and was there before the Reset or is an inclusion in a block of the new
+   chain.  Guard: no transaction included on the new branch currently sits in the limbo
+   (limbo.update finds nothing to move) *)
+Theorem C42_reset_limbo_entries : forall prioE prioB nearE nearB lg ll bs newh final p q oldh,
+  get_block bs (p_head p) = Some oldh ->
+  (forall ro, reorg bs oldh newh = Some ro ->
+              forall x, In x (ro_incl ro) -> aget (l_index (p_limbo p)) (bt_id (fst x)) = None) ->
+  pool_reset prioE prioB nearE nearB lg ll bs newh final p = Ok q ->
+  forall b i h, gentry (p_limbo q) b i h ->
+    final < b /\ (gentry (p_limbo p) b i h \/ incl_ok bs newh b h).
+Proof. exact reset_limbo_entries. Qed.
+Print Assumptions C42_reset_limbo_entries.
+
+(* with walk completeness: a limbo sound for the old chain is, after the Reset, above the
+   finalised block and sound for the new chain, except possibly for surviving entries of
+   transactions in the reorg's discarded set (the ones reinject pulls by hash) *)
+Theorem C42_reset_limbo_sound : forall prioE prioB nearE nearB lg ll bs newh final p q oldh ro,
+  ids_unique bs -> In newh bs ->
+  get_block bs (p_head p) = Some oldh -> reorg bs oldh newh = Some ro ->
+  (forall x, In x (ro_incl ro) -> aget (l_index (p_limbo p)) (bt_id (fst x)) = None) ->
+  csound bs oldh (p_limbo p) ->
+  pool_reset prioE prioB nearE nearB lg ll bs newh final p = Ok q ->
+  forall b i h, gentry (p_limbo q) b i h ->
+    final < b /\
+    (incl_ok bs newh b h \/ (gentry (p_limbo p) b i h /\ exists t, In t (ro_disc ro) /\ bt_id t = h)).
+Proof. exact reset_limbo_sound. Qed.
+Print Assumptions C42_reset_limbo_sound.
+
+(* consistency of the limbo's three structures (lcons: hash index and per-block groups name the
+   same (hash, id) pairs; every grouped id is live in the billy store and holds the item with
+   that hash and block number) is kept by push — guard: the shelves of the limbo store hold
+   fewer than 2^28 slots — ... *)
+Theorem C42_limbo_push_keeps_consistent : forall l t blk,
+  lcons l -> shelves_small (l_store l) -> lcons (limbo_push l t blk).
+Proof. exact push_lcons. Qed.
+Print Assumptions C42_limbo_push_keeps_consistent.
+
+(* ... and by pull, after which no group lists the pulled hash any more ... *)
+Theorem C42_limbo_pull_removes_hash : forall l h l' o,
+  lcons l -> limbo_pull l h = Ok (l', o) -> lcons l' /\ forall b i, ~ gentry l' b i h.
+Proof. exact pull_lcons. Qed.
+Print Assumptions C42_limbo_pull_removes_hash.
+
+(* ... so reinject (Reset putting a transaction of a dropped block back into the pool) leaves a
+   consistent limbo that lists the transaction nowhere: pooled again, not in the limbo *)
+Theorem C42_reinject_clears_limbo : forall a hh p q,
+  lcons (p_limbo p) -> reinject a hh p = Ok q ->
+  lcons (p_limbo q) /\ forall b i, ~ gentry (p_limbo q) b i hh.
+Proof. exact reinject_clears. Qed.
+Print Assumptions C42_reinject_clears_limbo.
 
 (* crash cuts: every entry a clean Close leaves on disk is on disk, unchanged, after an abrupt
    stop (Delete never touches the disk: an abrupt stop can only resurrect entries) *)
